@@ -540,6 +540,9 @@ class Authorization(Endpoint):
                         _ver_request.jws_header.get("enc"),
                         "enc_enc",
                     )
+                # from_jwt() picks the verification keys by issuer
+                if _ver_request.get("iss", client_id) != client_id:
+                    raise ValueError("The request object was issued by another client")
                 # The protected info overwrites the non-protected
                 for k, v in _ver_request.items():
                     request[k] = v
